@@ -30,6 +30,39 @@ def plan_configs(u, tier):
     return calls, cfgs
 
 
+def section_orders(counts, limit, rnd):
+    """every order in which the threads can enter their critical sections (thread t enters counts[t] of them, in
+    its own program order): the distinct sequences over thread ids; sampled when there are more than `limit`"""
+    total = sum(counts)
+    import math
+    n = math.factorial(total)
+    for c in counts:
+        n //= math.factorial(c)
+    out = []
+    if n <= limit:
+        def rec(left, acc):
+            if len(acc) == total:
+                out.append(list(acc))
+                return
+            for t, c in enumerate(left):
+                if c:
+                    left[t] -= 1
+                    acc.append(t + 1)
+                    rec(left, acc)
+                    acc.pop()
+                    left[t] += 1
+        rec(list(counts), [])
+        return out, n
+    seen = set()
+    while len(out) < limit:
+        seq = [t + 1 for t, c in enumerate(counts) for _ in range(c)]
+        rnd.shuffle(seq)
+        if tuple(seq) not in seen:
+            seen.add(tuple(seq))
+            out.append(seq)
+    return out, n
+
+
 def run(tier, verdicts, stats, seed):
     rnd = random.Random(seed)
     u = exportlib.Universe()
@@ -69,12 +102,20 @@ def run(tier, verdicts, stats, seed):
                     if tier == "quick" and (ci + th + len(pt)) % 3 != 0:
                         continue
                     runs.append({"cfg": ci, "kind": "probe", "pauses": [{"thread": th, "point": pt, "nth": 1, "ms": 60}]})
+            # exact schedules: one critical section per type of a call's closure (already exported types are skipped
+            # inside the section); every order of the threads' sections (sampled beyond the limit)
+            import exportchecks
+            counts = [sum(len(exportchecks.closure(u, calls[i - 1])) for i in p) for p in plans]
+            orders, norders = section_orders(counts, 40 if tier == "quick" else 400, rnd)
+            stats["thread_schedules_total"] = stats.get("thread_schedules_total", 0) + norders
+            for od in orders:
+                runs.append({"cfg": ci, "kind": "schedule", "pauses": [], "order": od})
         recs = []
         for rid, r_ in enumerate(runs):
             plans = cfgs[r_["cfg"]]
             hp = [[dict(op="call", entry=calls[i - 1]["entry"], ty=calls[i - 1]["ty"], env=None, dir=calls[i - 1]["dir_s"], env_skip=True)
                    for i in p] for p in plans]
-            recs.append({"rid": rid, "plans": hp, "pauses": r_["pauses"]})
+            recs.append({"rid": rid, "plans": hp, "pauses": r_["pauses"], "order": r_.get("order", [])})
         rpath = os.path.join(vlib.TMP, "thr-runs.ndjson")
         opath = os.path.join(vlib.TMP, "thr-obs.ndjson")
         bpath = os.path.join(vlib.TMP, "thr-blobs.json")
@@ -131,6 +172,12 @@ def run(tier, verdicts, stats, seed):
                     "pauses": json.dumps(r_["pauses"])}
             detail = {"events": ob["events"], "tree": ob["tree"], "files": {b: blobs.get(b) for b in ob["tree"].values() if b in blobs},
                       "calls": [exportlib_call_name(c) for c in calls]}
+            if r_["kind"] == "schedule":
+                desc["order"] = json.dumps(r_["order"])
+                locks = [e["thread"] for e in ob["events"] if e["ev"] == "Lock"]
+                if ob.get("stuck") or locks != r_["order"]:
+                    verdicts.fail(dict(desc, tag="schedule_not_followed", sections_entered=json.dumps(locks)), detail)
+                    continue
             if not o["accepted"]:
                 ev = ob["events"][o["rejected_at"] - 1] if 0 < o["rejected_at"] <= len(ob["events"]) else None
                 verdicts.fail(dict(desc, tag="trace_rejected", event=json.dumps(ev)), detail)
@@ -147,6 +194,7 @@ def run(tier, verdicts, stats, seed):
         stats["thread_runs"] = len(runs)
         stats["thread_events_validated"] = n_events
         stats["thread_probe_runs"] = sum(1 for r_ in runs if r_["kind"] == "probe")
+        stats["thread_schedule_runs"] = sum(1 for r_ in runs if r_["kind"] == "schedule")
         stats["thread_plan_configs"] = len(cfgs)
         stats["thread_sample"] = {"plans": [[exportlib_call_name(calls[i - 1]) for i in p] for p in cfgs[2]],
                                   "events": [(e["thread"], e["ev"], e.get("ident", e.get("ret", "")))
